@@ -19,7 +19,7 @@ while [ $# -gt 0 ]; do
     *) args+=("$1") ;;
   esac; shift
 done
-restore() { git -C /repo checkout -- . 2>/dev/null; }
+restore() { git -C /repo checkout -- . 2>/dev/null; git -C /repo clean -fdq -- src tests 2>/dev/null; }
 trap 'restore; rm -rf "$OUT"' EXIT
 if [ -n "$(git -C /repo status --porcelain --untracked-files=no)" ]; then echo "sensitivity: /repo has uncommitted changes; refusing" >&2; exit 2; fi
 (cd "$VERIF/sim" && cargo build --release --offline >/dev/null 2>&1) || { echo "build failed" >&2; exit 2; }
